@@ -5,6 +5,7 @@ Property theorems only; helper lemmas live in Lemmas/Transpile*.lean.
 import NetqasmVerif.Lemmas.TranspileSim
 import NetqasmVerif.Lemmas.TranspileExpandSound
 import NetqasmVerif.Lemmas.TranspileScratch
+import NetqasmVerif.Lemmas.TranspilePure
 import NetqasmVerif.Gen.NvExpand
 namespace NQ.C08
 open NQ NQ.Tr
@@ -20,6 +21,47 @@ hardware settings -/
 theorem expansions_have_no_branch : ∀ d h : Bool,
     TemplatesNoBranch (Gen.cfg d h) = true ∧ InfosWF (Gen.cfg d h) = true ∧
     isDebug (Gen.cfg d h).pad = false := by
+  decide +kernel
+
+/-! ## Purity: the output is a function of (subroutine, settings)
+
+In /repo the output buffer, the index map and the debug-marker counter are locals of `transpile()`;
+of the object only `_register_values` and `_used_registers` survive a call. `transpileObj cfg rv0
+used0 S` is a call on an object whose two attributes hold `rv0`, `used0`. The history streams of
+checks/c08.py (helper methods called first; a call that raised, then a retry; two calls on one
+object; two objects on one subroutine) test exactly these statements on the real objects. -/
+
+/-- **transpile_pure**: (1) a fresh object computes `transpile cfg S`, which mentions no object state
+at all; (2) whatever an object did before, a call depends on it only through look-ups in
+`_register_values` and membership in `_used_registers` — never through an output buffer, an index
+map or a debug counter; in particular (3) helper methods, which touch neither attribute, cannot
+influence a later call. -/
+theorem transpile_pure (cfg : Cfg) (S : List Instr) :
+    transpileObj cfg [] [] S = transpile cfg S ∧
+    (∀ rv rv' used used', (∀ r, rv.lookup r = rv'.lookup r) → (∀ r, r ∈ used ↔ r ∈ used') →
+      transpileObj cfg rv used S = transpileObj cfg rv' used' S) :=
+  ⟨transpileObj_fresh cfg S, fun _ _ _ _ hl hu => transpileObj_congr cfg hl hu S⟩
+
+/-- **retry after an exception**: an object left behind by a call that got through the stretch `P`
+(no two-qubit gate in it) and then raised — its attributes are `P`'s `set`s and registers — asked
+again for `P ++ R` (same program under another setting, or with the rest edited) answers exactly as
+a fresh object. (After a carbon–carbon gate the real pass has already overwritten `reg0` of the
+caller's instruction object, so a retry is meaningless there: not claimed.) -/
+theorem transpile_retry_pure (cfg : Cfg) (P R : List Instr) (hfree : ∀ x ∈ P, isGate2 cfg x = false) :
+    transpileObj cfg (rvAfter cfg [] P) (P.flatMap topRegs) (P ++ R) = transpile cfg (P ++ R) :=
+  transpileObj_retry cfg P R hfree
+
+/-- a second pass over a program without gates changes nothing once its targets are in range
+(witness: the loop of `loopHeadZero` minus its gate; idempotence is tested on the real code) -/
+theorem second_pass_identity_witness :
+    let S : List Instr := [
+      ⟨"core.SetInstruction", [.reg ⟨0, 1⟩, .imm 1]⟩, ⟨"core.SetInstruction", [.reg ⟨0, 2⟩, .imm 3]⟩,
+      ⟨"core.AddInstruction", [.reg ⟨0, 0⟩, .reg ⟨0, 0⟩, .reg ⟨0, 1⟩]⟩,
+      ⟨"core.BltInstruction", [.reg ⟨0, 0⟩, .reg ⟨0, 2⟩, .imm 0]⟩,
+      ⟨"core.BgeInstruction", [.reg ⟨0, 0⟩, .reg ⟨0, 2⟩, .imm 5]⟩]
+    ∀ d : Bool, (transpile (Gen.cfg d false) S).toOption.bind
+        (fun o => (transpile (Gen.cfg d false) o).toOption.map (fun o' => (o' == o, o.length))) =
+      some (true, 6) := by
   decide +kernel
 
 /-! ## The index map and the branch targets (all vanilla subroutines, any length)
